@@ -38,8 +38,18 @@ func init() {
 				Body: func() { schedTwoCtx(k.c) }})
 			out = append(out, &vexplore.Scenario{Name: k.n + "-queue-resized-with-requests-waiting", Mode: "enum", Reset: kit.ResetGlobals,
 				Body: func() { resizeWithWaiting(k.n, k.c) }, NeedCounters: []string{"answered-after-resize"}})
+			out = append(out, &vexplore.Scenario{Name: k.n + "-recv-times-out-between-request-and-reply", Mode: "enum", Reset: kit.ResetGlobals,
+				Body: func() { recvTimesOutBetween(k.n, k.c) }, NeedCounters: []string{"reply-after-timed-out-recv-routed-or-refused", "next-request-answered"}})
 			out = append(out, &vexplore.Scenario{Name: k.n + "-shared-reply-two-contexts", Mode: "sched", Bound: b, Reset: kit.ResetGlobals,
 				Body: func() { schedSharedReply(k.n, k.c) }})
+		}
+		for _, k := range []struct {
+			n string
+			c ctor
+		}{{"rep", rep.NewSocket}, {"respondent", respondent.NewSocket}, {"xrep", xrep.NewSocket}, {"xrespondent", xrespondent.NewSocket}} {
+			k := k
+			out = append(out, &vexplore.Scenario{Name: k.n + "-long-routing-headers", Mode: "enum", Reset: kit.ResetGlobals,
+				Body: func() { longRouting(k.n, k.c) }, NeedCounters: []string{"reply-with-nine-or-more-routing-words-exact"}})
 		}
 		for _, k := range []struct {
 			n string
@@ -285,6 +295,184 @@ func (w *world) doSend(m *mctx) {
 		}
 		kit.Count("reply-routed")
 	}
+}
+
+// recvTimesOutBetween: a request has been received; before the application replies it calls Recv
+// again (with a receive deadline), once or twice, and those calls time out.  The reply sent then
+// either answers the request (exactly its routing header, to its connection only) or is refused
+// with the protocol-state error and nothing is written - whether a new Recv abandons the pending
+// request is the pattern's choice - and the next request / reply pair works as ever.
+func recvTimesOutBetween(kind string, c ctor) {
+	useCtx := kit.ChooseFree(2) == 1
+	ntimeouts := 1 + kit.ChooseFree(2)
+	early := kit.ChooseFree(2) == 1 // a Recv also timed out before the first request arrived
+	w := setup(c, 2)
+	m := w.ctxs[0]
+	if useCtx {
+		m = w.ctxs[1]
+	}
+	set := w.sock.SetOption
+	if useCtx {
+		set = m.c.SetOption
+	}
+	d := 50 * time.Millisecond
+	if err := set(mangos.OptionRecvDeadline, d); err != nil {
+		kit.Failf("setup", "SetOption(RecvDeadline): %s", kit.ErrName(err))
+	}
+	timedOutRecv := func() {
+		rc := kit.Start("Recv", func() (interface{}, error) { b, err := m.recvCall(); return string(b), err })
+		kit.Quiesce()
+		kit.Sleep(d)
+		kit.Quiesce()
+		if !rc.Done() || rc.Err != mangos.ErrRecvTimeout {
+			kit.Failf("recv-deadline-result:"+kind, "%s: Recv with nothing to receive and deadline %v: done=%v %s", kind, d, rc.Done(), kit.ErrName(rc.Err))
+		}
+	}
+	roundTrip := func(pi, k, timeouts int, tag string) {
+		r, data := w.mkRequest(pi, k)
+		w.pipes[pi].Deliver(data)
+		kit.Quiesce()
+		rc := kit.Start("Recv", func() (interface{}, error) { b, err := m.recvCall(); return string(b), err })
+		kit.Quiesce()
+		if !rc.Done() || rc.Err != nil || rc.Val.(string) != r.body {
+			kit.Failf("recv-request:"+kind, "%s: %s request %q from p%d: Recv done=%v %s %q", kind, tag, r.body, pi, rc.Done(), kit.ErrName(rc.Err), rc.Val)
+		}
+		for i := 0; i < timeouts; i++ {
+			timedOutRecv()
+		}
+		w.newWire()
+		body := "reply-" + tag
+		sc := kit.Start("Send", func() (interface{}, error) { return nil, m.send([]byte(body)) })
+		kit.Quiesce()
+		if !sc.Done() {
+			kit.Failf("send-blocked", "%s: Send of the %s reply blocks", kind, tag)
+		}
+		wire := w.newWire()
+		if timeouts > 0 && sc.Err == mangos.ErrProtoState {
+			if len(wire) != 0 {
+				kit.Failf("send-no-request-wire", "%s: Send refused with ErrProtoState yet wrote %x", kind, wire[0].Data)
+			}
+			kit.Count("reply-after-timed-out-recv-routed-or-refused")
+			return
+		}
+		want := append(append([]byte{}, r.backtrace...), body...)
+		if sc.Err != nil || len(wire) != 1 || wire[0].pipe != pi || !bytes.Equal(wire[0].Data, want) {
+			kit.Failf("reply-after-timed-out-recv:"+kind, "%s: %s request from p%d (routing header %x), then %d Recv call(s) that timed out, then the reply: Send %s, wire %v; want the routing header and %q on p%d only", kind, tag, pi, r.backtrace, timeouts, kit.ErrName(sc.Err), wire, body, pi)
+		}
+		if timeouts > 0 {
+			kit.Count("reply-after-timed-out-recv-routed-or-refused")
+		} else {
+			kit.Count("next-request-answered")
+		}
+	}
+	if early {
+		timedOutRecv()
+	}
+	roundTrip(0, 2, ntimeouts, "first")
+	roundTrip(1, 0, 0, "second")
+	roundTrip(0, 2, 0, "third")
+	kit.Observe("%s ctx=%v n=%d early=%v", kind, useCtx, ntimeouts, early)
+	kit.Must("Close", func() { _ = w.sock.Close() })
+}
+
+// longRouting: the hop limit is raised (16 or 255) and requests arrive that have crossed many
+// devices: routing headers of 1..15 words before the id word, from two connections in turn, two or
+// three in a row (socket or context; raw sockets get the header on Recv and give it back on Send).
+// Every reply goes to the asking connection with exactly the words its request carried.
+func longRouting(kind string, c ctor) {
+	raw := kind[0] == 'x'
+	ttl := []int{16, 255}[kit.ChooseFree(2)]
+	depths := [][]int{{8, 9, 3}, {9, 9}, {12, 1, 12}, {15, 7}, {7, 8, 15}}[kit.ChooseFree(5)]
+	useCtx := !raw && kit.ChooseFree(2) == 1
+	s, err := c()
+	if err != nil {
+		kit.Failf("setup", "NewSocket: %v", err)
+	}
+	if err := s.SetOption(mangos.OptionTTL, ttl); err != nil {
+		kit.Failf("setup", "SetOption(TTL,%d): %s", ttl, kit.ErrName(err))
+	}
+	ep := vt.Get("deep")
+	if err := s.Listen("vt://deep"); err != nil {
+		kit.Failf("setup", "Listen: %v", err)
+	}
+	pipes := []*vt.Pipe{ep.Connect(), ep.Connect()}
+	kit.Quiesce()
+	var cx mangos.Context
+	if useCtx {
+		if cx, err = s.OpenContext(); err != nil {
+			kit.Failf("setup", "OpenContext: %s", kit.ErrName(err))
+		}
+	}
+	seen := []int{0, 0}
+	for n, k := range depths {
+		pi := n % 2
+		var bt []byte
+		for i := 0; i < k; i++ {
+			bt = append(bt, byte(i*7+n)&0x7f, byte(k), byte(n), byte(i+1))
+		}
+		bt = append(bt, 0x80|byte(n), 0xee, byte(k), byte(n))
+		body := fmt.Sprintf("deep-request-%d-%d", n, k)
+		pipes[pi].Deliver(append(append([]byte{}, bt...), body...))
+		kit.Quiesce()
+		var m *mangos.Message
+		rc := kit.Start("Recv", func() (interface{}, error) {
+			var err error
+			if useCtx {
+				m, err = cx.RecvMsg()
+			} else {
+				m, err = s.RecvMsg()
+			}
+			return nil, err
+		})
+		kit.Quiesce()
+		if !rc.Done() || rc.Err != nil {
+			kit.Failf("deep-request-not-delivered:"+kind, "%s (TTL %d): a request that crossed %d connections was not delivered: Recv done=%v %s", kind, ttl, k+1, rc.Done(), kit.ErrName(rc.Err))
+		}
+		if string(m.Body) != body {
+			kit.Failf("deep-request-body:"+kind, "%s: request with %d routing words delivered as %q, want %q", kind, k, m.Body, body)
+		}
+		reply := mangos.NewMessage(32)
+		rbody := fmt.Sprintf("deep-reply-%d", n)
+		reply.Body = append(reply.Body, rbody...)
+		if raw {
+			if len(m.Header) != 4+len(bt) || !bytes.Equal(m.Header[4:], bt) {
+				kit.Failf("raw-recv-header:"+kind, "%s: request with %d routing words: received header %x, want a pipe id followed by %x", kind, k, m.Header, bt)
+			}
+			reply.Header = append(reply.Header, m.Header...)
+		}
+		m.Free()
+		sc := kit.Start("Send", func() (interface{}, error) {
+			if useCtx {
+				return nil, cx.SendMsg(reply)
+			}
+			return nil, s.SendMsg(reply)
+		})
+		kit.Quiesce()
+		if !sc.Done() || sc.Err != nil {
+			kit.Failf("deep-reply-send:"+kind, "%s: Send of the reply: done=%v %s", kind, sc.Done(), kit.ErrName(sc.Err))
+		}
+		want := append(append([]byte{}, bt...), rbody...)
+		for i, p := range pipes {
+			l := p.SentLog()
+			nw := l[seen[i]:]
+			seen[i] = len(l)
+			if i != pi && len(nw) != 0 {
+				kit.Failf("reply-misrouted", "%s: the reply to a request from p%d (%d routing words) was written to p%d: %x", kind, pi, k, i, nw[0].Data)
+			}
+			if i == pi && (len(nw) != 1 || !bytes.Equal(nw[0].Data, want)) {
+				got := []byte(nil)
+				if len(nw) > 0 {
+					got = nw[0].Data
+				}
+				kit.Failf("reply-bytes", "%s (TTL %d): the reply to a request with %d routing words: %d message(s) written to the asker, first %x; want exactly the routing header %x followed by %q", kind, ttl, k, len(nw), got, bt, rbody)
+			}
+		}
+		if k >= 9 {
+			kit.Count("reply-with-nine-or-more-routing-words-exact")
+		}
+	}
+	kit.Observe("%s ttl=%d %v ctx=%v", kind, ttl, depths, useCtx)
+	kit.Must("Close", func() { _ = s.Close() })
 }
 
 // take removes the queued request with this body; only a head of a per-pipe queue may be returned.
